@@ -56,6 +56,28 @@ type Contract struct {
 	Defines   []*Clause // conservative definitions of otherwise uninterpreted predicates: assumed at entry of the function
 }
 
+// serves: does any clause of the contract carry the property tag (an engine error in such a function leaves the
+// property undecided and must fail its check).
+func (c *Contract) serves(prop string) bool {
+	if contains(c.Props, prop) {
+		return true
+	}
+	var all []*Clause
+	all = append(all, c.Requires...)
+	all = append(all, c.Ensures...)
+	all = append(all, c.Decreases...)
+	for _, l := range c.Loops {
+		all = append(all, l.Invariants...)
+		all = append(all, l.Decreases...)
+	}
+	for _, cl := range all {
+		if contains(cl.Props, prop) {
+			return true
+		}
+	}
+	return false
+}
+
 type Lemma struct {
 	Name  string
 	Props []string
